@@ -152,13 +152,13 @@ def afterOpts {D : Type} (c : Codec D) (s : Sol D) : Bytes :=
     (str "objno " ++ encInt (s.objno - 1) ++ 32 :: encInt s.status ++ 10 :: writeSuffixes c s.sufs))
 
 theorem writeSol_eq {D : Type} (c : Codec D) (s : Sol D) (hne : s.options ≠ []) :
-    writeSol c s = writeMessage s.msg ++ (str "Options" ++ 10 ::
+    writeSolLit c s = writeMessage s.msg ++ (str "Options" ++ 10 ::
       (writeIntLines (optInts s.options s.ncons s.duals.length s.nvars s.primals.length) ++ afterOpts c s)) := by
   have hl : ¬ (s.options.length = 0) := by
     cases h : s.options with
     | nil => exact absurd h hne
     | cons _ _ => simp
-  unfold writeSol afterOpts optInts
+  unfold writeSolLit afterOpts optInts
   simp [hl, writeIntLines, writeIntLines_append, encInt_ofNat, nl, sp, List.append_assoc]
 
 theorem readU32_ne6 (X rest : Bytes) (hlen : 4 ≤ X.length) (h0 : ∀ b ∈ X, b ≠ 0) (r : Bytes) :
@@ -299,9 +299,9 @@ theorem cstr_clean (l : Bytes) (h0 : ∀ c ∈ l, c ≠ 0) : cstr l = l := by
   have := cstr_zeros l 0 h0
   simpa using this
 
-/-- **Round trip** (model level): what `readSol` makes of what `writeSol` wrote -/
+/-- **Round trip** (model level): what `readSol` makes of what `writeSolLit` wrote -/
 theorem roundtrip {D : Type} (fx fm : Bool) (c : Codec D) (s : Sol D) (nv nc : Nat) (w : Wf c s nv nc) :
-    readSol fx fm nv nc readAll (writeSol c s) = ⟨.ok, observable c s, false⟩ := by
+    readSol fx fm nv nc readAll (writeSolLit c s) = ⟨.ok, observable c s, false⟩ := by
   obtain ⟨o0, o1, o2, os, ho, hos, h3⟩ := w.opts
   have hne : s.options ≠ [] := by rw [ho]; simp
   have hmc := writeMessage_clean s.msg w.msg
@@ -421,5 +421,140 @@ theorem intTextValue_encInt (n : Int) : intTextValue (encInt n) = some n := by
     · simp [hne, hall, hv]; omega
   · rw [e]
     simp [intTextValue, hne, hall, hv]; omega
+
+/-- below the switch to scientific notation the text model of `%.16g` is the plain numeral -/
+theorem fmtG16Int_small (n : Int) (h : n.natAbs < 10 ^ 16) : fmtG16Int n = encInt n := by
+  have hl : (encNat n.natAbs).length ≤ 16 := encNatAux_len n.natAbs n.natAbs 15 h
+  unfold fmtG16Int encInt fmtG16Nat
+  simp only [hl, if_true]
+
+theorem takeWhile_all {α : Type} (p : α → Bool) (l : List α) (h : l.all p = true) : l.takeWhile p = l := by
+  induction l with
+  | nil => rfl
+  | cons a r ih =>
+    simp only [List.all_cons, Bool.and_eq_true] at h
+    simp [List.takeWhile, h.1, ih h.2]
+
+/-- the exact value of the printed text is the integer itself (`m = n`, exponent 0) -/
+theorem parseDec_encInt (n : Int) : parseDec (encInt n) = some (n, 0) := by
+  obtain ⟨hd, hne, hv⟩ := encNat_spec n.natAbs
+  have hall := all_isDigit_encNat n.natAbs
+  have htw := takeWhile_all isDigit _ hall
+  have h45 : (encNat n.natAbs).head? ≠ some 45 := by
+    intro hh
+    cases he : encNat n.natAbs with
+    | nil => exact hne he
+    | cons x r =>
+      rw [he] at hh
+      have hx : x = 45 := by simpa using hh
+      have : isDigit x = true := hd x (by rw [he]; simp)
+      rw [hx] at this; simp [isDigit] at this
+  rcases encInt_cases n with ⟨hn, e⟩ | ⟨hn, e⟩
+  · rw [e]
+    unfold parseDec
+    simp only [h45, decide_false, Bool.false_eq_true, if_false, htw, List.drop_length, List.length_nil, List.drop_nil, List.append_nil, hv,
+      List.takeWhile_nil]
+    simp [hne]; omega
+  · rw [e]
+    unfold parseDec
+    simp only [List.head?_cons, decide_true, if_true, List.drop_succ_cons, List.drop_zero, htw, List.drop_length, List.append_nil, hv]
+    simp [hne]; omega
+
+/-! ## `writeSol` (rendered from the generated format strings) = `writeSolLit`
+
+Each of the eleven prints, rendered by `fmtGo` from the format string of the tree under test, is the text the hand-written form contains (kernel
+evaluation of the interpreter on the generated string, arguments free).  If a format string in include/mp/sol.h changes, these fail. -/
+
+theorem fmtK_0 {D : Type} (c : Codec D) (i : Nat) (v : Int) : fmtK c 0 [.nat i, .int v] = encNat i ++ [32] ++ encInt v ++ [10] := by
+  show encNat i ++ (32 :: (encInt v ++ [10])) = _
+  simp
+theorem fmtK_1 {D : Type} (c : Codec D) (i : Nat) (v : D) : fmtK c 1 [.nat i, .real v] = encNat i ++ [32] ++ c.enc v ++ [10] := by
+  show encNat i ++ (32 :: (c.enc v ++ [10])) = _
+  simp
+theorem fmtK_2 {D : Type} (c : Codec D) (a b d e f : Nat) (n : Bytes) :
+    fmtK c 2 [.nat a, .nat b, .nat d, .nat e, .nat f, .txt n] =
+      str "suffix " ++ encNat a ++ sp ++ encNat b ++ sp ++ encNat d ++ sp ++ encNat e ++ sp ++ encNat f ++ nl ++ n ++ nl := by
+  show str "suffix " ++ (encNat a ++ (32 :: (encNat b ++ (32 :: (encNat d ++ (32 :: (encNat e ++ (32 :: (encNat f ++ (10 :: (n ++ [10])))))))))))  = _
+  simp [sp, nl]
+theorem fmtK_3 {D : Type} (c : Codec D) (t : Bytes) : fmtK c 3 [.txt t] = t ++ nl := by
+  show t ++ [10] = _
+  rfl
+theorem fmtK_4 {D : Type} (c : Codec D) : fmtK c 4 [] = str "Options" ++ nl := by rfl
+theorem fmtK_5 {D : Type} (c : Codec D) (n : Nat) : fmtK c 5 [.nat n] = encNat n ++ nl := by
+  show encNat n ++ [10] = _
+  rfl
+theorem fmtK_6 {D : Type} (c : Codec D) (i : Int) : fmtK c 6 [.int i] = encInt i ++ nl := by
+  show encInt i ++ [10] = _
+  rfl
+theorem fmtK_7 {D : Type} (c : Codec D) (a b d e : Nat) :
+    fmtK c 7 [.nat a, .nat b, .nat d, .nat e] = encNat a ++ nl ++ encNat b ++ nl ++ encNat d ++ nl ++ encNat e ++ nl := by
+  show encNat a ++ (10 :: (encNat b ++ (10 :: (encNat d ++ (10 :: (encNat e ++ [10])))))) = _
+  simp [nl]
+theorem fmtK_8 {D : Type} (c : Codec D) (v : D) : fmtK c 8 [.real v] = c.enc v ++ nl := by
+  show c.enc v ++ [10] = _
+  rfl
+theorem fmtK_9 {D : Type} (c : Codec D) (v : D) : fmtK c 9 [.real v] = c.enc v ++ nl := by
+  show c.enc v ++ [10] = _
+  rfl
+theorem fmtK_10 {D : Type} (c : Codec D) (a b : Int) : fmtK c 10 [.int a, .int b] = str "objno " ++ encInt a ++ sp ++ encInt b ++ nl := by
+  show str "objno " ++ (encInt a ++ (32 :: (encInt b ++ [10]))) = _
+  simp [sp, nl]
+
+theorem wEntriesI_eq {D : Type} (c : Codec D) (vs : List Int) : ∀ i, wEntriesI c i vs = writeEntries (sparseI i vs) := by
+  induction vs with
+  | nil => intro i; rfl
+  | cons v vs ih =>
+    intro i
+    simp only [wEntriesI, sparseI]
+    split
+    · exact ih (i + 1)
+    · rw [fmtK_0, ih (i + 1)]; simp [writeEntries]
+
+theorem wEntriesD_eq {D : Type} (c : Codec D) (vs : List D) : ∀ i, wEntriesD c i vs = writeEntries (sparseD c i vs) := by
+  induction vs with
+  | nil => intro i; rfl
+  | cons v vs ih =>
+    intro i
+    simp only [wEntriesD, sparseD]
+    split
+    · exact ih (i + 1)
+    · rw [fmtK_1, ih (i + 1)]; simp [writeEntries]
+
+theorem wSuffix_eq {D : Type} (c : Codec D) (s : Suf D) : wSuffix c s = writeSuffix c s := by
+  unfold wSuffix writeSuffix
+  split
+  · rfl
+  · simp only [fmtK_2, fmtK_3, wEntriesD_eq, wEntriesI_eq, Suf.entries]
+    split <;> simp [List.append_assoc]
+
+theorem wSuffixes_eq {D : Type} (c : Codec D) (l : List (Suf D)) : wSuffixes c l = writeSuffixes c l := by
+  induction l with
+  | nil => rfl
+  | cons s r ih => simp [wSuffixes, writeSuffixes, wSuffix_eq, ih]
+
+theorem wIntLines_eq {D : Type} (c : Codec D) (l : List Int) : wIntLines c l = writeIntLines l := by
+  induction l with
+  | nil => rfl
+  | cons i r ih => simp [wIntLines, writeIntLines, fmtK_6, ih]
+
+theorem wVals_eq8 {D : Type} (c : Codec D) (l : List D) : wVals c 8 l = writeVals c l := by
+  induction l with
+  | nil => rfl
+  | cons i r ih => simp [wVals, writeVals, fmtK_8, ih]
+
+theorem wVals_eq9 {D : Type} (c : Codec D) (l : List D) : wVals c 9 l = writeVals c l := by
+  induction l with
+  | nil => rfl
+  | cons i r ih => simp [wVals, writeVals, fmtK_9, ih]
+
+/-- the file rendered from the format strings of the tree under test is the hand-written form the lemmas are about -/
+theorem writeSol_eq_lit {D : Type} (c : Codec D) (s : Sol D) : writeSol c s = writeSolLit c s := by
+  unfold writeSol writeSolLit
+  simp only [fmtK_4, fmtK_5, fmtK_7, fmtK_10, wIntLines_eq, wVals_eq8, wVals_eq9, wSuffixes_eq, List.append_assoc]
+
+/-- **Round trip** for the writer model that renders the generated format strings -/
+theorem roundtrip' {D : Type} (fx fm : Bool) (c : Codec D) (s : Sol D) (nv nc : Nat) (w : Wf c s nv nc) :
+    readSol fx fm nv nc readAll (writeSol c s) = ⟨.ok, observable c s, false⟩ := by
+  rw [writeSol_eq_lit]; exact roundtrip fx fm c s nv nc w
 
 end MpVerif.C05
